@@ -705,6 +705,17 @@ func (r *writerRun) exec(fault *WFault, outp *[]Ev) (out []Ev) {
 			ev["tx"] = r.takeTx()
 			wc.w = nil
 			wc.open = false
+		case "WJB":
+			// WriteJSON of a value encoding/json cannot encode
+			msgID++
+			r.pays[msgID] = []byte{}
+			wc.ctlMsg = msgID
+			ev["type"], ev["n"], ev["m"], ev["prev"], ev["wasopen"] = 1, 0, msgID, wc.curMsg, wc.open
+			r.preSwitch(wc, msgID)
+			err = c.WriteJSON(map[string]interface{}{"k": []interface{}{1, make(chan int)}})
+			ev["tx"] = r.takeTx()
+			wc.w = nil
+			wc.open = false
 		case "WC":
 			msgID++
 			data := wire.TextPay(p.Seed, msgID, op.N)
